@@ -37,7 +37,11 @@ func buildOverlayTest(c *core.Ctx, pkg, driverFile, injectedName string) (string
 
 // runOverlayTest runs the injected driver test with an input and output file.
 func runOverlayTest(bin, cwd, in, outp string) (string, error) {
-	cmd := exec.Command(bin, "-test.run", "^TestVerifDriver$", "-test.count=1", "-test.timeout=600s")
+	return runOverlayTestNamed(bin, cwd, in, outp, "TestVerifDriver")
+}
+
+func runOverlayTestNamed(bin, cwd, in, outp, name string) (string, error) {
+	cmd := exec.Command(bin, "-test.run", "^"+name+"$", "-test.count=1", "-test.timeout=600s")
 	cmd.Dir = cwd
 	cmd.Env = append(os.Environ(), "VERIF_IN="+in, "VERIF_OUT="+outp)
 	b, err := cmd.CombinedOutput()
